@@ -166,6 +166,9 @@ pub struct Rt {
     pub stop: Cell<bool>,
     /// print every shim operation (debugging aid, VERIF_TRACE=1)
     pub trace: Cell<bool>,
+    /// also yield *after* every write (store / RMW / successful CAS): exposes the non-atomic
+    /// code that follows a publication (e.g. a tag stored before the value is written)
+    pub post_write: Cell<bool>,
 }
 
 impl Rt {
@@ -203,6 +206,7 @@ impl Rt {
             seam_live_blocks: Cell::new(0),
             stop: Cell::new(false),
             trace: Cell::new(false),
+            post_write: Cell::new(false),
         }
     }
 
@@ -244,6 +248,7 @@ impl Rt {
         self.seam_live_bytes.set(0);
         self.seam_live_blocks.set(0);
         self.stop.set(false);
+        self.post_write.set(false);
     }
 
     #[inline]
